@@ -8,7 +8,7 @@ Prints one line per patch; exit 1 if an expectation is not met (deliberately-not
 import glob, json, os, shutil, subprocess, sys, time
 V = os.path.dirname(os.path.dirname(os.path.abspath(__file__)))
 ENV = dict(os.environ, GOFLAGS="-mod=mod", GOPROXY="off", GOSUMDB="off", GOTOOLCHAIN="local")
-EXPECT_MISS = {"C05-explicit-gomaxprocs-segment-wins", "C05-r2-seed3", "C19-r2-seed2"}
+EXPECT_MISS = {"C05-explicit-gomaxprocs-segment-wins", "C05-r2-seed3", "C19-r2-seed2", "C05-r4-seed2", "C17-r4-seed1"}
 
 
 def sh(cmd, cwd, env=ENV):
